@@ -81,6 +81,10 @@ def make_pair(rng, n, scale, kind):
     elif kind == "nearhalf":
         R = half_turn(rng) @ rand_rot_small(rng, rng.choice([1e-5, 3e-5, 1e-4, 1e-3, 1e-2, 0.1]))
         B = A @ R
+    elif kind == "smallrot":
+        # near-identical structures that differ by a slight rigid drift: the rotation matrix is the identity to within float32 on its
+        # diagonal, its off-diagonal elements (~ the angle) are what superpose has to apply
+        B = A @ rand_rot_small(rng, rng.choice([2e-5, 1e-4, 2e-4, 4e-4, 2e-3])) + np.array([[rng.gauss(0, 1) for _ in range(3)] for _ in range(n)]) * rng.choice([0, 1e-4])
     else:
         raise ValueError(kind)
     if kind in ("near", "planar") and rng.random() < 0.5:
@@ -94,7 +98,7 @@ def rand_rot_small(rng, ang):
     return np.eye(3) + np.sin(ang) * K + (1 - np.cos(ang)) * K @ K
 
 
-KINDS = ["rand", "near", "mirror", "planar", "rot", "halfturn", "nearhalf"]
+KINDS = ["rand", "near", "mirror", "planar", "rot", "halfturn", "nearhalf", "smallrot"]
 
 
 def tol_msd(G_over_n, gaprel, cmax, rm):
@@ -142,6 +146,11 @@ def run(ctx):
         offA = np.array([rng.uniform(-1, 1) for _ in range(3)]) * rng.choice([0, 3, 60])
         offB = np.array([rng.uniform(-1, 1) for _ in range(3)]) * rng.choice([0, 3, 60])
         sel_mode = rng.choice(["none", "none", "same", "diff", "slice"]) if n >= 6 else "none"
+        if kind == "smallrot":
+            # structures of a few nm near the origin: the drift moves atoms by much more than the float32 spacing of the coordinates
+            scale = rng.choice([1.0, 4.0, 4.0])
+            offA, offB = offA / 20, offB / 20
+            n = max(n, 6)
         big = (k % 40 == 17)                                  # a large system: N * Rg^2 beyond 2e6 nm^2 (lambda^6 beyond the float32 range)
         if big:
             n, scale, sel_mode, nfr, nref, frame = 5000, 25.0, "none", 1, 1, 0
@@ -247,7 +256,7 @@ def run(ctx):
             tol = tol_msd(2 * G, gaprel, cmax, rm)
             degenerate = gaprel < 1e-3
             ctx.count("degenerate (eigenvalue gap < 1e-3)" if degenerate else "well separated")
-            nontriv = (k, f) if (m > 1e-12 or kind in ("rot", "halfturn", "nearhalf")) else None
+            nontriv = (k, f) if (m > 1e-12 or kind in ("rot", "halfturn", "nearhalf", "smallrot")) else None
             ctx.case(desc if len(ctx.samples) < 5 else None, nontriv)
             if abs(r[f] ** 2 - m) > tol:
                 viol("rmsd|not-minimal|%s|%s" % (kind, sel_mode), "md.rmsd = %.7g but the minimum over rotations and translations is %.7g (n=%d, %s, frame %d; msd difference %.3g > budget %.3g)" % (
@@ -278,7 +287,10 @@ def run(ctx):
                 # attains the minimum on the alignment atoms, measured without fitting
                 after = np.sqrt(((X1[selA] - ref[frame, selB].astype(np.float64)) ** 2).sum(1).mean())
                 ctx.count("superposed frames")
-                if after ** 2 - m > 4 * tol + 8 * after * coord_eps:
+                # at the optimum the deviation is stationary in the rotation: an error e of the rotation angle costs ~ e^2 * G. For the slight
+                # rigid drifts the budget is that of the float32 rotation matrix and coordinates, not the (much wider) one of the QCP value
+                lim = (2 * G * 1e-10 + 16 * coord_eps ** 2) if (kind == "smallrot" and not degenerate) else 4 * tol
+                if after ** 2 - m > lim + 8 * after * coord_eps:
                     hk = "half-turn" if kind in ("halfturn", "nearhalf") else kind
                     viol("superpose|not-optimal|%s|%s|size-%g" % (hk, sel_mode, scale) if scale < 0.1 else "superpose|not-optimal|%s|%s" % (hk, sel_mode),
                          "after superpose the alignment atoms are %.6g nm (rms) from the reference, the minimum is %.6g (n=%d, size %g nm, %s, frame %d)" % (after, rm, n, scale, kind, f), rp)
